@@ -478,3 +478,28 @@ def ob_timedelta_parameters(kind: int, di: int, si: int, ui: int, att: int) -> b
     else:
         a, b = _wexp(multiplier=1000, max=as_td), _wexp(multiplier=1000, max=secs)
     return a(att) == b(att)
+
+
+# ------------------------------------------------------------------------------------------------ documented aliases
+from workflows.retry_policy import wait_full_jitter as _wfj, wait_random_exponential as _wre  # noqa: E402
+
+
+@obligation(quick=60, thorough=120,
+            what="wait_full_jitter is documented as an alias for wait_random_exponential: built with the same multiplier / exp_base / max / min it "
+                 "is configured identically and, for the same seed, returns the same delay for every attempt - in particular never less than min",
+            bounds={"multiplier": "1..2", "max": "1..60", "min": "0..2 (int or half)", "attempts": "0..4", "seed": "0..3"})
+def ob_full_jitter_alias(mu: int, mx: int, mn2: int, att: int, seed: int) -> bool:
+    """
+    pre: 1 <= mu <= 2 and 1 <= mx <= 3 and 0 <= mn2 <= 4 and 0 <= att <= 4 and 0 <= seed <= 3
+    post: _
+    """
+    mu, mx, mn2 = H.fork_int(mu, 1, 2), [1, 5, 60][H.fork_int(mx, 1, 3) - 1], H.fork_int(mn2, 0, 4)
+    att, seed = H.fork_int(att, 0, 4), H.fork_int(seed, 0, 3)
+    mn = mn2 / 2
+    from vlib.h_tools import untraced
+
+    with untraced():        # the seeded random.Random must be the real one (CrossHair would make its draws symbolic)
+        a = _wfj(multiplier=mu, exp_base=2, max=mx, min=mn)
+        b = _wre(multiplier=mu, exp_base=2, max=mx, min=mn)
+        da, db = a(att, seed=seed), b(att, seed=seed)
+        return da == db and (da >= mn or mn > mx)
